@@ -9,6 +9,7 @@ from units import AnalysisBroken
 PURE_EXT = {
     "strcmp", "strncmp", "strlen", "strcasecmp", "__errno_location", "pthread_getspecific", "__builtin_popcount",
     "__builtin_expect", "regexec", "strerror", "dlerror", "__builtin_va_start", "__builtin_va_end", "pthread_self",
+    "pthread_once",   # idempotent one-time initialisation (the thread-specific key): not an effect a guard must precede
 }
 
 
@@ -182,8 +183,10 @@ def bailouts(fn):
 
 # ----------------------------------------------------------------------------- must-facts with aliases and kills
 
-def mustfacts(fn, kill=None, alias=True):
+def mustfacts(fn, kill=None, alias=True, passed=False):
     """Must-hold branch facts with copy propagation of simple aliases (x = y  ⇒ facts on y also hold on x).
+    passed=True gives "this guard edge was taken on every path to here" semantics: only re-assignment of a whole
+    variable the atom mentions invalidates it (a store to a field the guard tested does not).
     Returns (IN, transfer)."""
 
     def gen(ev):
@@ -193,6 +196,8 @@ def mustfacts(fn, kill=None, alias=True):
         dead = set()
         lhs = ev.lhs
         lhs_s = S(lhs) if lhs is not None else None
+        if passed and lhs is not None and strip(lhs)["k"] != "var":
+            lhs_s = None
         for f in st:
             if lhs_s is not None and lm._mentions(f[0], lhs_s):
                 dead.add(f)
@@ -200,11 +205,14 @@ def mustfacts(fn, kill=None, alias=True):
                 dead.add(f)
         if dead:
             st = st - dead
+        if lhs_s is None and lhs is not None:
+            lhs_s = S(lhs)
         if alias and ev.kind in ("assign", "decl") and ev.rhs is not None and ev.kind != "incdec":
             if ev.kind == "assign" and ev.e.get("op") != "=":
                 return st
             r = strip(ev.rhs)
-            if r is not None and r["k"] in ("var", "member", "un") and (r["k"] != "un" or r["op"] == "*"):
+            if r is not None and "cv" not in r and r.get("vk") not in ("enum", "func") \
+                    and r["k"] in ("var", "member", "un") and (r["k"] != "un" or r["op"] == "*"):
                 rs = S(r)
                 add = set()
                 for f in st:
